@@ -1,4 +1,1361 @@
-//! C18, E2 part: FiberPool parallel_map/for_each/reduce and Pipeline stages over all small inputs.
-use zverif::{Registry, Tier};
+//! C18, E2 part: "parallel_map/for_each/reduce and pipeline batch processing return one result per input, in
+//! input order where the API returns a sequence, equal to applying the stage function sequentially; a failing
+//! or timed-out item surfaces as an error rather than a missing or shifted result."
+//!
+//! Every subject runs the real API on a real tokio runtime (current-thread and 2-worker multi-thread, built
+//! once per process) and judges ONLY the returned value (plus, for `for_each`-style APIs, the visit log at
+//! return time), so the verdict does not depend on how tokio interleaves the tasks.
+//!
+//! Items are `(index, value)` pairs with value in {0,1,2}; a stage maps `(i, v)` to `(i, v)` (Id) or
+//! `(i, v + 1)` (every other variant) and misbehaves at one index:
+//!   FailAt(i)  returns Err for item i
+//!   PanicAt(i) panics for item i (only where the stage runs inside a spawned task: the API then sees a JoinError)
+//!   SlowAt(i)  never finishes item i within any realistic time (sleeps 3600 s against a 5 ms `stage_timeout`;
+//!              the design's "20 x timeout" would make the verdict depend on machine load: with a stall of
+//!              > 95 ms between two polls tokio's `timeout` legitimately returns the value)
+//!   LateAt(i)  item i completes only after item i+1 has completed (a oneshot dependency, deterministic;
+//!              only for APIs that take futures and only with concurrency >= 2)
+//! All stages but SlowAt run with a 30 s `stage_timeout`, so a loaded machine cannot cause a spurious timeout.
 
-pub fn register(_reg: &mut Registry, _tier: Tier) {}
+use serde::{Deserialize, Serialize};
+use std::future::Future;
+use std::path::PathBuf;
+use std::pin::Pin;
+use std::sync::atomic::{AtomicUsize, Ordering};
+use std::sync::{Arc, Mutex, OnceLock};
+use std::time::Duration;
+use tokio::sync::{mpsc, oneshot};
+use zverif::enumr::{fail, Enum, EnumSpec};
+use zverif::util::all_strings;
+use zverif::{Outcome, Registry, Tier};
+
+use zipora::concurrency::async_blob_store::{AsyncBlobStore, AsyncCompressedBlobStore, AsyncMemoryBlobStore};
+use zipora::concurrency::fiber_aio::FiberIoUtils;
+use zipora::concurrency::fiber_pool::{FiberPool, FiberPoolConfig};
+use zipora::concurrency::fiber_yield::{CooperativeUtils, YieldingIterator};
+use zipora::concurrency::pipeline::{BatchCollector, BatchMapStage, FilterStage, MapStage, Pipeline, PipelineConfig, PipelineStage};
+use zipora::error::ZiporaError;
+
+type ZResult<T> = zipora::error::Result<T>;
+type Item = (usize, u8);
+type BoxFut<T> = Pin<Box<dyn Future<Output = ZResult<T>> + Send>>;
+
+const HANG: Duration = Duration::from_secs(10);
+const SHORT_TIMEOUT: Duration = Duration::from_millis(5);
+const LONG_TIMEOUT: Duration = Duration::from_secs(30);
+const NEVER: Duration = Duration::from_secs(3600);
+
+// ------------------------------------------------------------------------------------------------
+// case description
+
+#[derive(Clone, Copy, Debug, PartialEq, Eq, Hash, Serialize, Deserialize, Default)]
+pub enum Rt {
+    /// `tokio::runtime::Builder::new_current_thread()`
+    #[default]
+    Current,
+    /// `new_multi_thread().worker_threads(2)`
+    Multi2,
+}
+
+#[derive(Clone, Copy, Debug, PartialEq, Eq, Hash, Serialize, Deserialize, Default)]
+pub enum Stage {
+    #[default]
+    Id,
+    Inc,
+    FailAt(usize),
+    PanicAt(usize),
+    SlowAt(usize),
+    LateAt(usize),
+}
+
+/// which `PipelineStage` implementation carries the stage function
+#[derive(Clone, Copy, Debug, PartialEq, Eq, Hash, Serialize, Deserialize, Default)]
+pub enum Kind {
+    #[default]
+    Map,
+    /// `BatchMapStage::new` (no batch function)
+    BatchMapPlain,
+    /// `BatchMapStage::with_batch_support` (batch function = sequential map of the same stage function)
+    BatchMapBatch,
+    /// the harness' own `PipelineStage` whose `process` is genuinely async; `supports_batching() == true`, trait-default `process_batch`
+    Async,
+    /// `FilterStage` with predicate `value != 1` (results are `Option<item>`; cannot fail)
+    FilterNot1,
+}
+
+#[derive(Clone, Copy, Debug, PartialEq, Eq, Hash, Serialize, Deserialize, Default)]
+pub enum ROp {
+    /// list concatenation, identity = empty list (associative, NOT commutative)
+    #[default]
+    Concat,
+    /// u64 addition, identity 0
+    Sum,
+    /// concatenation that fails when its right operand contains item i
+    ConcatFailAt(usize),
+    ConcatPanicAt(usize),
+}
+
+#[derive(Clone, Debug, Hash, Serialize, Deserialize, Default)]
+pub struct Case {
+    pub rt: Rt,
+    pub input: Vec<u8>,
+    #[serde(default)]
+    pub stage: Stage,
+    /// second stage (execute_two_stage)
+    #[serde(default)]
+    pub stage2: Stage,
+    #[serde(default)]
+    pub rop: ROp,
+    #[serde(default)]
+    pub kind: Kind,
+    /// execute_stream: chain length and which stage of the chain carries `stage` (the others carry its well-behaved base)
+    #[serde(default)]
+    pub n_stages: usize,
+    #[serde(default)]
+    pub at: usize,
+    /// PipelineConfig::enable_batching
+    #[serde(default)]
+    pub batching: bool,
+    #[serde(default)]
+    pub max_fibers: usize,
+    #[serde(default)]
+    pub max_workers: usize,
+    /// batch size / max_concurrent / yield interval, whatever the API calls its chunking parameter
+    #[serde(default)]
+    pub batch: usize,
+    #[serde(default)]
+    pub buffer: usize,
+    #[serde(default)]
+    pub in_flight: usize,
+    /// BatchCollector: call `check_timeout()` after this many adds; `zero_timeout` = batch_timeout 0 (always due) instead of 3600 s (never due)
+    #[serde(default)]
+    pub check_after: Option<usize>,
+    #[serde(default)]
+    pub zero_timeout: bool,
+}
+
+#[derive(Clone, Copy, Debug, PartialEq, Eq)]
+enum Api {
+    PoolMap,
+    PoolForEach,
+    PoolReduce,
+    PoolSpawnBatch,
+    ModMap,
+    ModReduce,
+    ExecSingle,
+    ExecTwoStage,
+    ProcessBatch,
+    ExecStream,
+    Collector,
+    RunWithYield,
+    ProcessVecYielding,
+    YieldingIter,
+    ConcurrentWithYield,
+    ProcessFilesParallel,
+    IoBatchProcess,
+    BlobBatch,
+}
+
+impl Api {
+    fn name(self) -> &'static str {
+        match self {
+            Api::PoolMap => "FiberPool::parallel_map",
+            Api::PoolForEach => "FiberPool::parallel_for_each",
+            Api::PoolReduce => "FiberPool::parallel_reduce",
+            Api::PoolSpawnBatch => "FiberPool::spawn_batch + await every handle",
+            Api::ModMap => "concurrency::parallel_map (join_all)",
+            Api::ModReduce => "concurrency::parallel_reduce",
+            Api::ExecSingle => "Pipeline::execute_single",
+            Api::ExecTwoStage => "Pipeline::execute_two_stage",
+            Api::ProcessBatch => "Pipeline::process_batch",
+            Api::ExecStream => "Pipeline::execute_stream",
+            Api::Collector => "BatchCollector add/check_timeout/flush",
+            Api::RunWithYield => "CooperativeUtils::run_with_yield",
+            Api::ProcessVecYielding => "CooperativeUtils::process_vec_yielding",
+            Api::YieldingIter => "YieldingIterator::for_each/collect",
+            Api::ConcurrentWithYield => "CooperativeUtils::concurrent_with_yield",
+            Api::ProcessFilesParallel => "FiberIoUtils::process_files_parallel",
+            Api::IoBatchProcess => "FiberIoUtils::batch_process",
+            Api::BlobBatch => "AsyncBlobStore::put_batch/get_batch",
+        }
+    }
+}
+
+// ------------------------------------------------------------------------------------------------
+// the stage function and its sequential reference
+
+fn misbehaves(stage: Stage) -> Option<usize> {
+    match stage {
+        Stage::FailAt(i) | Stage::PanicAt(i) | Stage::SlowAt(i) => Some(i),
+        _ => None,
+    }
+}
+
+/// the well-behaved function a stage computes on the items it does not misbehave on
+fn base(stage: Stage) -> Stage {
+    if stage == Stage::Id {
+        Stage::Id
+    } else {
+        Stage::Inc
+    }
+}
+
+/// synchronous part of the stage (SlowAt/LateAt are handled by the async wrappers)
+fn apply(stage: Stage, (idx, v): Item) -> ZResult<Item> {
+    match stage {
+        Stage::FailAt(i) if i == idx => Err(ZiporaError::invalid_data("injected stage failure")),
+        Stage::PanicAt(i) if i == idx => panic!("injected stage panic"),
+        Stage::Id => Ok((idx, v)),
+        _ => Ok((idx, v + 1)),
+    }
+}
+
+fn items(input: &[u8]) -> Vec<Item> {
+    input.iter().copied().enumerate().collect()
+}
+
+/// sequential reference: `None` = some item fails / times out, so the call as a whole has to be an error
+fn reference(stages: &[Stage], input: &[u8]) -> Option<Vec<Item>> {
+    let mut out = Vec::with_capacity(input.len());
+    for (idx, &v) in input.iter().enumerate() {
+        let mut it = (idx, v);
+        for &s in stages {
+            if misbehaves(s) == Some(idx) {
+                return None;
+            }
+            it = (idx, if s == Stage::Id { it.1 } else { it.1 + 1 });
+        }
+        out.push(it);
+    }
+    Some(out)
+}
+
+/// class of the misbehaviour that a swallowed error belongs to: Err and timeout are one arm in the code under test
+fn swallow_class(stages: &[Stage], len: usize) -> &'static str {
+    for s in stages {
+        match *s {
+            Stage::PanicAt(i) if i < len => return "stage_panic",
+            Stage::FailAt(i) | Stage::SlowAt(i) if i < len => return "stage_err_or_timeout",
+            _ => {}
+        }
+    }
+    "none"
+}
+
+fn mismatch_class<T: PartialEq + Ord + Clone>(got: &[T], want: &[T]) -> &'static str {
+    if got.len() < want.len() {
+        "shorter"
+    } else if got.len() > want.len() {
+        "longer"
+    } else {
+        let (mut a, mut b) = (got.to_vec(), want.to_vec());
+        a.sort();
+        b.sort();
+        if a == b {
+            "reordered"
+        } else {
+            "wrong_values"
+        }
+    }
+}
+
+/// The oracle shared by every sequence-returning API.
+fn judge_seq<T: PartialEq + Ord + Clone + std::fmt::Debug, E: std::fmt::Debug>(
+    got: Result<Vec<T>, E>,
+    want: Option<Vec<T>>,
+    swallow: &str,
+) -> Outcome {
+    match (got, want) {
+        (Ok(g), Some(w)) => {
+            if g == w {
+                if w.is_empty() {
+                    Outcome::trivial("ok_empty")
+                } else {
+                    Outcome::pass("ok")
+                }
+            } else {
+                fail("result_mismatch", mismatch_class(&g, &w), format!("sequential map gives {:?}, the call returned Ok({:?})", w, g))
+            }
+        }
+        (Err(_), None) => Outcome::pass("err"),
+        (Ok(g), None) => fail(
+            "error_swallowed",
+            swallow,
+            format!("one item fails or times out, so the call must return Err; it returned Ok({:?})", g),
+        ),
+        (Err(e), Some(w)) => fail("unexpected_err", "err", format!("no item fails (expected Ok({:?})), the call returned Err({:?})", w, e)),
+    }
+}
+
+/// One-shot dependency used by LateAt(i): item i waits until item i+1 is done.
+struct Gate {
+    tx: Mutex<Option<oneshot::Sender<()>>>,
+    rx: Mutex<Option<oneshot::Receiver<()>>>,
+}
+
+impl Gate {
+    fn new() -> Arc<Gate> {
+        let (tx, rx) = oneshot::channel();
+        Arc::new(Gate { tx: Mutex::new(Some(tx)), rx: Mutex::new(Some(rx)) })
+    }
+}
+
+/// the stage as a future (for APIs that take futures / async processors)
+fn item_future(stage: Stage, gate: Arc<Gate>, it: Item, runs: Option<Arc<Vec<AtomicUsize>>>) -> BoxFut<Item> {
+    Box::pin(async move {
+        if let Some(r) = &runs {
+            r[it.0].fetch_add(1, Ordering::SeqCst);
+        }
+        match stage {
+            Stage::LateAt(i) if i == it.0 => {
+                let rx = gate.rx.lock().unwrap().take();
+                if let Some(rx) = rx {
+                    let _ = rx.await;
+                }
+            }
+            Stage::SlowAt(i) if i == it.0 => tokio::time::sleep(NEVER).await,
+            _ => {}
+        }
+        let r = apply(stage, it);
+        if let Stage::LateAt(i) = stage {
+            if i + 1 == it.0 {
+                if let Some(tx) = gate.tx.lock().unwrap().take() {
+                    let _ = tx.send(());
+                }
+            }
+        }
+        r
+    })
+}
+
+/// harness-side `PipelineStage` with a genuinely asynchronous `process` (needed for SlowAt: a synchronous
+/// function is Ready at its first poll and can never be timed out by `tokio::time::timeout`)
+struct AsyncStage {
+    stage: Stage,
+}
+
+impl PipelineStage<Item, Item> for AsyncStage {
+    fn process(&self, input: Item) -> Pin<Box<dyn Future<Output = ZResult<Item>> + Send + '_>> {
+        let stage = self.stage;
+        Box::pin(async move {
+            tokio::task::yield_now().await;
+            if let Stage::SlowAt(i) = stage {
+                if i == input.0 {
+                    tokio::time::sleep(NEVER).await;
+                }
+            }
+            apply(stage, input)
+        })
+    }
+    fn name(&self) -> &str {
+        "async"
+    }
+    fn supports_batching(&self) -> bool {
+        true
+    }
+}
+
+fn boxed_stage(kind: Kind, stage: Stage) -> Box<dyn PipelineStage<Item, Item>> {
+    match kind {
+        Kind::Map => Box::new(MapStage::new("map".to_string(), move |it: Item| apply(stage, it))),
+        Kind::BatchMapPlain => {
+            Box::new(BatchMapStage::<_, fn(Vec<Item>) -> ZResult<Vec<Item>>>::new("bmap".to_string(), move |it: Item| apply(stage, it)))
+        }
+        Kind::BatchMapBatch => Box::new(BatchMapStage::with_batch_support(
+            "bmapb".to_string(),
+            move |it: Item| apply(stage, it),
+            move |v: Vec<Item>| v.into_iter().map(|it| apply(stage, it)).collect::<ZResult<Vec<Item>>>(),
+        )),
+        Kind::Async | Kind::FilterNot1 => Box::new(AsyncStage { stage }),
+    }
+}
+
+// ------------------------------------------------------------------------------------------------
+// runtimes
+
+fn runtime(rt: Rt) -> &'static tokio::runtime::Runtime {
+    static CUR: OnceLock<tokio::runtime::Runtime> = OnceLock::new();
+    static MT2: OnceLock<tokio::runtime::Runtime> = OnceLock::new();
+    match rt {
+        Rt::Current => CUR.get_or_init(|| tokio::runtime::Builder::new_current_thread().enable_all().build().expect("current-thread runtime")),
+        Rt::Multi2 => MT2.get_or_init(|| tokio::runtime::Builder::new_multi_thread().worker_threads(2).enable_all().build().expect("multi-thread runtime")),
+    }
+}
+
+/// Run the case's future to completion; a call that does not return within 10 s is reported as `hang`.
+fn block<T>(rt: Rt, fut: impl Future<Output = T>) -> Result<T, Outcome> {
+    match runtime(rt).block_on(async { tokio::time::timeout(HANG, fut).await }) {
+        Ok(v) => Ok(v),
+        Err(_) => Err(fail("hang", "no_return_within_10s", "the call did not return within 10 s")),
+    }
+}
+
+fn pool(c: &Case) -> ZResult<FiberPool> {
+    FiberPool::new(FiberPoolConfig {
+        max_fibers: c.max_fibers,
+        initial_workers: 1,
+        max_workers: c.max_workers,
+        queue_capacity: 16,
+        idle_timeout: Duration::from_secs(1),
+    })
+}
+
+fn pipeline(c: &Case, slow: bool) -> Pipeline {
+    Pipeline::new(PipelineConfig {
+        buffer_size: c.buffer.max(1),
+        max_in_flight: c.in_flight.max(1),
+        stage_timeout: if slow { SHORT_TIMEOUT } else { LONG_TIMEOUT },
+        enable_batching: c.batching,
+        batch_size: c.batch.max(1),
+        batch_timeout: Duration::from_millis(100),
+    })
+}
+
+fn is_slow(s: Stage) -> bool {
+    matches!(s, Stage::SlowAt(_))
+}
+
+// ------------------------------------------------------------------------------------------------
+// enumeration helpers
+
+fn max_len(tier: Tier) -> usize {
+    tier.pick(4, 5)
+}
+
+fn for_inputs(tier: Tier, f: &mut dyn FnMut(&[u8]) -> bool) -> bool {
+    all_strings(&[0u8, 1, 2], max_len(tier), f)
+}
+
+/// inputs on which the real-time (5 ms each) SlowAt cases run: every vector of length <= 2 (quick) / <= 3
+/// (thorough) plus the cyclic vectors 0,1,2,0,1 up to the tier's maximum length
+fn for_slow_inputs(tier: Tier, f: &mut dyn FnMut(&[u8]) -> bool) -> bool {
+    let small = tier.pick(2, 3);
+    if !all_strings(&[0u8, 1, 2], small, f) {
+        return false;
+    }
+    for len in small + 1..=max_len(tier) {
+        let v: Vec<u8> = (0..len).map(|i| (i % 3) as u8).collect();
+        if !f(&v) {
+            return false;
+        }
+    }
+    true
+}
+
+struct StageOpts {
+    fail: bool,
+    panic: bool,
+    late: bool,
+}
+
+fn stages_for(len: usize, o: &StageOpts) -> Vec<Stage> {
+    let mut v = vec![Stage::Id, Stage::Inc];
+    if o.fail {
+        v.extend((0..len).map(Stage::FailAt));
+    }
+    if o.panic {
+        v.extend((0..len).map(Stage::PanicAt));
+    }
+    if o.late {
+        v.extend((0..len.saturating_sub(1)).map(Stage::LateAt));
+    }
+    v
+}
+
+const RTS: [Rt; 2] = [Rt::Current, Rt::Multi2];
+
+/// (batch size, buffer, in-flight): full grid in the thorough tier, a covering diagonal in the quick tier
+fn pipe_cfgs(tier: Tier) -> Vec<(usize, usize, usize)> {
+    match tier {
+        Tier::Quick => vec![(1, 1, 1), (2, 2, 2), (3, 1, 2)],
+        Tier::Thorough => {
+            let mut v = Vec::new();
+            for b in 1..=3 {
+                for buf in 1..=2 {
+                    for fl in 1..=2 {
+                        v.push((b, buf, fl));
+                    }
+                }
+            }
+            v
+        }
+    }
+}
+
+// ------------------------------------------------------------------------------------------------
+
+struct Pipes {
+    api: Api,
+}
+
+impl EnumSpec for Pipes {
+    type Case = Case;
+
+    fn name(&self) -> String {
+        self.api.name().to_string()
+    }
+
+    fn space(&self, tier: Tier) -> String {
+        let n = max_len(tier);
+        let common = format!("inputs = all vectors of length <= {n} over {{0,1,2}} (items are (index, value)); runtimes: current-thread and 2-worker multi-thread");
+        let detail = match self.api {
+            Api::PoolMap | Api::PoolForEach => "stage in {Id, +1, FailAt(i), PanicAt(i) for every i}; max_fibers {1,2,8}".to_string(),
+            Api::PoolReduce => "op in {concat (non-commutative, identity []), sum (identity 0), concat failing/panicking on item i for every i}; max_fibers {1,2,8} x max_workers {1,2,3}; oracle = sequential left fold".to_string(),
+            Api::PoolSpawnBatch => "futures with stage in {Id, +1, FailAt(i), PanicAt(i), LateAt(i) (item i finishes after item i+1; max_fibers >= 2)}; max_fibers {1,2,8}; every handle awaited in input order: handle j yields Ok(stage(item j)) or Err exactly for the misbehaving item; every future ran exactly once".to_string(),
+            Api::ModMap => "stage in {Id, +1, FailAt(i), PanicAt(i)}".to_string(),
+            Api::ModReduce => "op as for FiberPool::parallel_reduce (chunking by num_cpus)".to_string(),
+            Api::ExecSingle => "one call per case on a single item: value {0,1,2} x stage {Id, +1, Fail, Slow (never finishes; stage_timeout 5 ms)} x stage kind {MapStage, BatchMapStage plain/batch, async stage, FilterStage}".to_string(),
+            Api::ExecTwoStage => "single item, value {0,1,2} x stage1, stage2 in {Id, +1, Fail, Slow} x kind {MapStage, async stage}".to_string(),
+            Api::ProcessBatch => "stage in {Id, +1, FailAt(i) every i, SlowAt(i) (async stage only; on the slow-input subset: all vectors of length <= 2 quick / <= 3 thorough plus cyclic ones up to the maximum length)} x stage kind {MapStage, BatchMapStage plain, BatchMapStage with batch fn, async stage with trait-default process_batch, FilterStage} x enable_batching {f,t} x (batch_size {1,2,3} x buffer {1,2} x in-flight {1,2}; quick: 3 of the 12 combinations)".to_string(),
+            Api::ExecStream => "chains of 1..3 stages (kind MapStage or async stage), one stage of the chain (every position) carries stage in {Id, +1, FailAt(i), PanicAt(i), SlowAt(i) (async kind, slow-input subset)}; buffer {1,2} (also the capacity of the caller's input and output channels) x in-flight {1,2}; feeder, execute_stream and collector run joined; oracle: Ok(()) => collected outputs == sequential map in order; a failing/panicking/timed-out item => Err".to_string(),
+            Api::Collector => "max_batch_size {1,2,3}; every input added in order, optionally one check_timeout() after k adds (every k) with batch_timeout 0 (always due) or 3600 s (never due), then flush(); oracle: concatenation of all returned batches == inputs, collector empty afterwards".to_string(),
+            Api::RunWithYield | Api::ProcessVecYielding | Api::YieldingIter => "stage in {Id, +1, FailAt(i)}; yield interval {1,2,3}".to_string(),
+            Api::ConcurrentWithYield | Api::ProcessFilesParallel => "futures with stage in {Id, +1, FailAt(i), LateAt(i) (max_concurrent >= 2)}; max_concurrent {1,2,3}".to_string(),
+            Api::IoBatchProcess => "stage in {Id, +1, FailAt(i)}; batch size {1,2,3}; the processor maps its chunk sequentially".to_string(),
+            Api::BlobBatch => "stores {AsyncMemoryBlobStore (own batch impl), AsyncCompressedBlobStore<memory> (trait-default batch impl)}; blobs [index, value]; put_batch then get_batch of the returned ids (Id), of the ids reversed (+1), or after removing record i (FailAt(i)): one id per blob, all distinct; get_batch returns the blobs of the requested ids in request order, or Err if one is missing".to_string(),
+        };
+        format!("{common}; {detail}")
+    }
+
+    fn cases(&self, tier: Tier, f: &mut dyn FnMut(Case) -> bool) {
+        match self.api {
+            Api::PoolMap | Api::PoolForEach | Api::PoolSpawnBatch => {
+                let spawn = self.api == Api::PoolSpawnBatch;
+                for rt in RTS {
+                    for max_fibers in [1usize, 2, 8] {
+                        let ok = for_inputs(tier, &mut |inp| {
+                            for stage in stages_for(inp.len(), &StageOpts { fail: true, panic: true, late: spawn && max_fibers >= 2 }) {
+                                if !f(Case { rt, input: inp.to_vec(), stage, max_fibers, max_workers: 2, ..Default::default() }) {
+                                    return false;
+                                }
+                            }
+                            true
+                        });
+                        if !ok {
+                            return;
+                        }
+                    }
+                }
+            }
+            Api::PoolReduce | Api::ModReduce => {
+                let grid: Vec<(usize, usize)> = if self.api == Api::PoolReduce {
+                    let mut g = Vec::new();
+                    for mf in [1usize, 2, 8] {
+                        for mw in [1usize, 2, 3] {
+                            g.push((mf, mw));
+                        }
+                    }
+                    g
+                } else {
+                    vec![(0, 0)]
+                };
+                for rt in RTS {
+                    for &(max_fibers, max_workers) in &grid {
+                        let ok = for_inputs(tier, &mut |inp| {
+                            let mut ops = vec![ROp::Concat, ROp::Sum];
+                            ops.extend((0..inp.len()).map(ROp::ConcatFailAt));
+                            ops.extend((0..inp.len()).map(ROp::ConcatPanicAt));
+                            for rop in ops {
+                                if !f(Case { rt, input: inp.to_vec(), rop, max_fibers, max_workers, ..Default::default() }) {
+                                    return false;
+                                }
+                            }
+                            true
+                        });
+                        if !ok {
+                            return;
+                        }
+                    }
+                }
+            }
+            Api::ModMap => {
+                for rt in RTS {
+                    let ok = for_inputs(tier, &mut |inp| {
+                        for stage in stages_for(inp.len(), &StageOpts { fail: true, panic: true, late: false }) {
+                            if !f(Case { rt, input: inp.to_vec(), stage, ..Default::default() }) {
+                                return false;
+                            }
+                        }
+                        true
+                    });
+                    if !ok {
+                        return;
+                    }
+                }
+            }
+            Api::ExecSingle => {
+                for rt in RTS {
+                    for kind in [Kind::Map, Kind::BatchMapPlain, Kind::BatchMapBatch, Kind::Async, Kind::FilterNot1] {
+                        for v in 0u8..3 {
+                            let stages: &[Stage] = match kind {
+                                Kind::FilterNot1 => &[Stage::Id],
+                                Kind::Async => &[Stage::Id, Stage::Inc, Stage::FailAt(0), Stage::SlowAt(0)],
+                                _ => &[Stage::Id, Stage::Inc, Stage::FailAt(0)],
+                            };
+                            for &stage in stages {
+                                if !f(Case { rt, input: vec![v], stage, kind, batch: 1, buffer: 1, in_flight: 1, ..Default::default() }) {
+                                    return;
+                                }
+                            }
+                        }
+                    }
+                }
+            }
+            Api::ExecTwoStage => {
+                for rt in RTS {
+                    for kind in [Kind::Map, Kind::Async] {
+                        let stages: &[Stage] = if kind == Kind::Async {
+                            &[Stage::Id, Stage::Inc, Stage::FailAt(0), Stage::SlowAt(0)]
+                        } else {
+                            &[Stage::Id, Stage::Inc, Stage::FailAt(0)]
+                        };
+                        for v in 0u8..3 {
+                            for &stage in stages {
+                                for &stage2 in stages {
+                                    if !f(Case { rt, input: vec![v], stage, stage2, kind, batch: 1, buffer: 1, in_flight: 1, ..Default::default() }) {
+                                        return;
+                                    }
+                                }
+                            }
+                        }
+                    }
+                }
+            }
+            Api::ProcessBatch => {
+                for rt in RTS {
+                    for kind in [Kind::Map, Kind::BatchMapPlain, Kind::BatchMapBatch, Kind::Async, Kind::FilterNot1] {
+                        for batching in [false, true] {
+                            for (batch, buffer, in_flight) in pipe_cfgs(tier) {
+                                let ok = for_inputs(tier, &mut |inp| {
+                                    let stages = if kind == Kind::FilterNot1 {
+                                        vec![Stage::Id]
+                                    } else {
+                                        stages_for(inp.len(), &StageOpts { fail: true, panic: false, late: false })
+                                    };
+                                    for stage in stages {
+                                        if !f(Case { rt, input: inp.to_vec(), stage, kind, batching, batch, buffer, in_flight, ..Default::default() }) {
+                                            return false;
+                                        }
+                                    }
+                                    true
+                                });
+                                if !ok {
+                                    return;
+                                }
+                            }
+                            if kind == Kind::Async {
+                                let ok = for_slow_inputs(tier, &mut |inp| {
+                                    for i in 0..inp.len() {
+                                        if !f(Case { rt, input: inp.to_vec(), stage: Stage::SlowAt(i), kind, batching, batch: 2, buffer: 1, in_flight: 1, ..Default::default() }) {
+                                            return false;
+                                        }
+                                    }
+                                    true
+                                });
+                                if !ok {
+                                    return;
+                                }
+                            }
+                        }
+                    }
+                }
+            }
+            Api::ExecStream => {
+                for rt in RTS {
+                    for kind in [Kind::Map, Kind::Async] {
+                        for n_stages in 1..=3usize {
+                            for buffer in [1usize, 2] {
+                                for in_flight in [1usize, 2] {
+                                    let ok = for_inputs(tier, &mut |inp| {
+                                        for stage in stages_for(inp.len(), &StageOpts { fail: true, panic: true, late: false }) {
+                                            // a well-behaved chain is the same whichever position "carries" the stage
+                                            let positions = if misbehaves(stage).is_some() { n_stages } else { 1 };
+                                            for at in 0..positions {
+                                                if !f(Case { rt, input: inp.to_vec(), stage, kind, n_stages, at, buffer, in_flight, batch: 1, ..Default::default() }) {
+                                                    return false;
+                                                }
+                                            }
+                                        }
+                                        true
+                                    });
+                                    if !ok {
+                                        return;
+                                    }
+                                }
+                            }
+                            if kind == Kind::Async {
+                                let ok = for_slow_inputs(tier, &mut |inp| {
+                                    for i in 0..inp.len() {
+                                        for at in 0..n_stages {
+                                            if !f(Case { rt, input: inp.to_vec(), stage: Stage::SlowAt(i), kind, n_stages, at, buffer: 1, in_flight: 1, batch: 1, ..Default::default() }) {
+                                                return false;
+                                            }
+                                        }
+                                    }
+                                    true
+                                });
+                                if !ok {
+                                    return;
+                                }
+                            }
+                        }
+                    }
+                }
+            }
+            Api::Collector => {
+                for rt in RTS {
+                    for batch in 1..=3usize {
+                        let ok = for_inputs(tier, &mut |inp| {
+                            if !f(Case { rt, input: inp.to_vec(), batch, ..Default::default() }) {
+                                return false;
+                            }
+                            for k in 0..=inp.len() {
+                                for zero_timeout in [true, false] {
+                                    if !f(Case { rt, input: inp.to_vec(), batch, check_after: Some(k), zero_timeout, ..Default::default() }) {
+                                        return false;
+                                    }
+                                }
+                            }
+                            true
+                        });
+                        if !ok {
+                            return;
+                        }
+                    }
+                }
+            }
+            Api::RunWithYield | Api::ProcessVecYielding | Api::YieldingIter | Api::IoBatchProcess | Api::ConcurrentWithYield | Api::ProcessFilesParallel => {
+                let futures_api = matches!(self.api, Api::ConcurrentWithYield | Api::ProcessFilesParallel);
+                for rt in RTS {
+                    for batch in 1..=3usize {
+                        let ok = for_inputs(tier, &mut |inp| {
+                            for stage in stages_for(inp.len(), &StageOpts { fail: true, panic: false, late: futures_api && batch >= 2 }) {
+                                if !f(Case { rt, input: inp.to_vec(), stage, batch, ..Default::default() }) {
+                                    return false;
+                                }
+                            }
+                            true
+                        });
+                        if !ok {
+                            return;
+                        }
+                    }
+                }
+            }
+            Api::BlobBatch => {
+                for rt in RTS {
+                    for kind in [Kind::Map, Kind::Async] {
+                        let ok = for_inputs(tier, &mut |inp| {
+                            for stage in stages_for(inp.len(), &StageOpts { fail: true, panic: false, late: false }) {
+                                if !f(Case { rt, input: inp.to_vec(), stage, kind, ..Default::default() }) {
+                                    return false;
+                                }
+                            }
+                            true
+                        });
+                        if !ok {
+                            return;
+                        }
+                    }
+                }
+            }
+        }
+    }
+
+    fn run(&self, c: &Case) -> Outcome {
+        match self.api {
+            Api::PoolMap => run_pool_map(c),
+            Api::PoolForEach => run_pool_for_each(c),
+            Api::PoolReduce | Api::ModReduce => run_reduce(self.api, c),
+            Api::PoolSpawnBatch => run_spawn_batch(c),
+            Api::ModMap => run_mod_map(c),
+            Api::ExecSingle => run_exec_single(c),
+            Api::ExecTwoStage => run_exec_two_stage(c),
+            Api::ProcessBatch => run_process_batch(c),
+            Api::ExecStream => run_exec_stream(c),
+            Api::Collector => run_collector(c),
+            Api::RunWithYield | Api::ProcessVecYielding | Api::YieldingIter | Api::IoBatchProcess => run_sequential_helpers(self.api, c),
+            Api::ConcurrentWithYield | Api::ProcessFilesParallel => run_unordered(self.api, c),
+            Api::BlobBatch => run_blob_batch(c),
+        }
+    }
+}
+
+// ------------------------------------------------------------------------------------------------
+// FiberPool
+
+fn run_pool_map(c: &Case) -> Outcome {
+    let stage = c.stage;
+    let its = items(&c.input);
+    let got = match block(c.rt, async {
+        let pool = pool(c)?;
+        pool.parallel_map(its, move |it| apply(stage, it)).await
+    }) {
+        Ok(r) => r,
+        Err(o) => return o,
+    };
+    judge_seq(got, reference(&[stage], &c.input), swallow_class(&[stage], c.input.len()))
+}
+
+fn run_mod_map(c: &Case) -> Outcome {
+    let stage = c.stage;
+    let its = items(&c.input);
+    let got = match block(c.rt, async { zipora::concurrency::parallel_map(its, move |it| apply(stage, it)).await }) {
+        Ok(r) => r,
+        Err(o) => return o,
+    };
+    judge_seq(got, reference(&[stage], &c.input), swallow_class(&[stage], c.input.len()))
+}
+
+fn run_pool_for_each(c: &Case) -> Outcome {
+    let stage = c.stage;
+    let its = items(&c.input);
+    let log: Arc<Mutex<Vec<Item>>> = Arc::new(Mutex::new(Vec::new()));
+    let log2 = log.clone();
+    let got = match block(c.rt, async {
+        let pool = pool(c)?;
+        pool.parallel_for_each(its, move |it| {
+            log2.lock().unwrap().push(it);
+            apply(stage, it).map(|_| ())
+        })
+        .await
+    }) {
+        Ok(r) => r,
+        Err(o) => return o,
+    };
+    let mut visited = log.lock().unwrap().clone();
+    visited.sort();
+    for w in visited.windows(2) {
+        if w[0] == w[1] {
+            return fail("visited_twice", "for_each", format!("item {:?} was passed to the closure more than once (visited: {:?})", w[0], visited));
+        }
+    }
+    match (got, misbehaves(stage)) {
+        (Ok(()), None) => {
+            let want = items(&c.input);
+            if visited == want {
+                if want.is_empty() {
+                    Outcome::trivial("ok_empty")
+                } else {
+                    Outcome::pass("ok")
+                }
+            } else {
+                fail("for_each_visits", mismatch_class(&visited, &want), format!("Ok(()) returned but the closure saw {:?} instead of every input exactly once ({:?})", visited, want))
+            }
+        }
+        (Err(_), Some(_)) => Outcome::pass("err"),
+        (Ok(()), Some(_)) => fail("error_swallowed", swallow_class(&[stage], c.input.len()), "the closure failed for one item, parallel_for_each returned Ok(())"),
+        (Err(e), None) => fail("unexpected_err", "err", format!("no item fails, the call returned Err({:?})", e)),
+    }
+}
+
+fn run_reduce(api: Api, c: &Case) -> Outcome {
+    let its = items(&c.input);
+    let n = its.len();
+    match c.rop {
+        ROp::Sum => {
+            let vals: Vec<u64> = c.input.iter().map(|&v| v as u64).collect();
+            let want: u64 = vals.iter().sum();
+            let got = match block(c.rt, async {
+                if api == Api::PoolReduce {
+                    let pool = pool(c)?;
+                    pool.parallel_reduce(vals, 0u64, |a, b| Ok(a + b)).await
+                } else {
+                    zipora::concurrency::parallel_reduce(vals, 0u64, |a, b| Ok(a + b)).await
+                }
+            }) {
+                Ok(r) => r,
+                Err(o) => return o,
+            };
+            match got {
+                Ok(g) if g == want => {
+                    if n == 0 {
+                        Outcome::trivial("ok_empty")
+                    } else {
+                        Outcome::pass("ok_sum")
+                    }
+                }
+                Ok(g) => fail("reduce_mismatch", "sum", format!("sequential fold gives {want}, parallel_reduce returned Ok({g})")),
+                Err(e) => fail("unexpected_err", "err", format!("no item fails, the call returned Err({:?})", e)),
+            }
+        }
+        rop => {
+            let lists: Vec<Vec<Item>> = its.iter().map(|&it| vec![it]).collect();
+            let op = move |mut a: Vec<Item>, b: Vec<Item>| -> ZResult<Vec<Item>> {
+                match rop {
+                    ROp::ConcatFailAt(i) if b.iter().any(|x| x.0 == i) => return Err(ZiporaError::invalid_data("injected reduce failure")),
+                    ROp::ConcatPanicAt(i) if b.iter().any(|x| x.0 == i) => panic!("injected reduce panic"),
+                    _ => {}
+                }
+                a.extend(b);
+                Ok(a)
+            };
+            let got = match block(c.rt, async {
+                if api == Api::PoolReduce {
+                    let pool = pool(c)?;
+                    pool.parallel_reduce(lists, Vec::new(), op).await
+                } else {
+                    zipora::concurrency::parallel_reduce(lists, Vec::new(), op).await
+                }
+            }) {
+                Ok(r) => r,
+                Err(o) => return o,
+            };
+            let (want, swallow) = match rop {
+                ROp::ConcatFailAt(_) => (None, "stage_err_or_timeout"),
+                ROp::ConcatPanicAt(_) => (None, "stage_panic"),
+                _ => (Some(its.clone()), "none"),
+            };
+            match (got, want) {
+                (Ok(g), Some(w)) if g == w => {
+                    if n == 0 {
+                        Outcome::trivial("ok_empty")
+                    } else {
+                        Outcome::pass("ok_concat")
+                    }
+                }
+                (Ok(g), Some(w)) => fail("reduce_mismatch", mismatch_class(&g, &w), format!("sequential fold (concatenation) gives {:?}, parallel_reduce returned Ok({:?})", w, g)),
+                (Err(_), None) => Outcome::pass("err"),
+                (Ok(g), None) => fail("error_swallowed", swallow, format!("the operation fails on one item, parallel_reduce returned Ok({:?})", g)),
+                (Err(e), Some(_)) => fail("unexpected_err", "err", format!("no item fails, the call returned Err({:?})", e)),
+            }
+        }
+    }
+}
+
+fn run_spawn_batch(c: &Case) -> Outcome {
+    let stage = c.stage;
+    let its = items(&c.input);
+    let n = its.len();
+    let runs: Arc<Vec<AtomicUsize>> = Arc::new((0..n).map(|_| AtomicUsize::new(0)).collect());
+    let gate = Gate::new();
+    let futs: Vec<BoxFut<Item>> = its.iter().map(|&it| item_future(stage, gate.clone(), it, Some(runs.clone()))).collect();
+    let got = match block(c.rt, async {
+        let pool = pool(c)?;
+        let handles = pool.spawn_batch(futs);
+        let mut out = Vec::with_capacity(handles.len());
+        for h in handles {
+            out.push(h.await);
+        }
+        Ok::<_, ZiporaError>(out)
+    }) {
+        Ok(Ok(r)) => r,
+        Ok(Err(e)) => return fail("unexpected_err", "pool_new", format!("FiberPool::new failed: {:?}", e)),
+        Err(o) => return o,
+    };
+    if got.len() != n {
+        return fail("result_mismatch", if got.len() < n { "shorter" } else { "longer" }, format!("{} futures submitted, {} handles returned", n, got.len()));
+    }
+    for (j, r) in got.iter().enumerate() {
+        let want = if misbehaves(stage) == Some(j) { None } else { apply(base(stage), its[j]).ok() };
+        match (r, want) {
+            (Ok(g), Some(w)) if *g == w => {}
+            (Err(_), None) => {}
+            (Ok(g), Some(w)) => {
+                return fail("result_mismatch", "wrong_values", format!("handle {j} yields Ok({:?}), its future computes {:?} (all handles: {:?})", g, w, got))
+            }
+            (Ok(g), None) => return fail("error_swallowed", swallow_class(&[stage], n), format!("future {j} fails but its handle yields Ok({:?})", g)),
+            (Err(e), Some(w)) => {
+                return fail("unexpected_err", "err", format!("handle {j} yields Err({:?}) although its future returns Ok({:?}) (all handles: {:?})", e, w, got))
+            }
+        }
+    }
+    for (j, r) in runs.iter().enumerate() {
+        let k = r.load(Ordering::SeqCst);
+        if k != 1 {
+            return fail("ran_exactly_once", if k == 0 { "never_run" } else { "ran_twice" }, format!("future {j} was started {k} times although its handle completed"));
+        }
+    }
+    if n == 0 {
+        Outcome::trivial("ok_empty")
+    } else if misbehaves(stage).is_some() {
+        Outcome::pass("err_on_its_handle")
+    } else {
+        Outcome::pass("ok")
+    }
+}
+
+// ------------------------------------------------------------------------------------------------
+// Pipeline
+
+fn opt_items(v: Vec<Option<Item>>) -> Vec<(usize, i16)> {
+    // FilterStage results: Some(item) -> (idx, value), None -> (usize::MAX, -1)
+    v.into_iter().map(|o| o.map(|(i, x)| (i, x as i16)).unwrap_or((usize::MAX, -1))).collect()
+}
+
+fn filter_reference(input: &[u8]) -> Vec<(usize, i16)> {
+    input.iter().enumerate().map(|(i, &v)| if v != 1 { (i, v as i16) } else { (usize::MAX, -1) }).collect()
+}
+
+fn run_exec_single(c: &Case) -> Outcome {
+    let it = (0usize, c.input[0]);
+    let stage = c.stage;
+    let p = pipeline(c, is_slow(stage));
+    if c.kind == Kind::FilterNot1 {
+        let st = FilterStage::new("f".to_string(), |x: &Item| x.1 != 1);
+        let got = match block(c.rt, async { p.execute_single(st, it).await }) {
+            Ok(r) => r,
+            Err(o) => return o,
+        };
+        return judge_seq(got.map(|o| opt_items(vec![o])), Some(filter_reference(&c.input)), "none");
+    }
+    let got = match block(c.rt, async {
+        match c.kind {
+            Kind::Map => p.execute_single(MapStage::new("m".to_string(), move |x: Item| apply(stage, x)), it).await,
+            Kind::BatchMapPlain => {
+                p.execute_single(BatchMapStage::<_, fn(Vec<Item>) -> ZResult<Vec<Item>>>::new("b".to_string(), move |x: Item| apply(stage, x)), it).await
+            }
+            Kind::BatchMapBatch => {
+                p.execute_single(
+                    BatchMapStage::with_batch_support("bb".to_string(), move |x: Item| apply(stage, x), move |v: Vec<Item>| v.into_iter().map(|x| apply(stage, x)).collect::<ZResult<Vec<Item>>>()),
+                    it,
+                )
+                .await
+            }
+            _ => p.execute_single(AsyncStage { stage }, it).await,
+        }
+    }) {
+        Ok(r) => r,
+        Err(o) => return o,
+    };
+    judge_seq(got.map(|x| vec![x]), reference(&[stage], &c.input), swallow_class(&[stage], 1))
+}
+
+fn run_exec_two_stage(c: &Case) -> Outcome {
+    let it = (0usize, c.input[0]);
+    let (s1, s2) = (c.stage, c.stage2);
+    let p = pipeline(c, is_slow(s1) || is_slow(s2));
+    let got = match block(c.rt, async {
+        match c.kind {
+            Kind::Map => {
+                p.execute_two_stage(MapStage::new("m1".to_string(), move |x: Item| apply(s1, x)), MapStage::new("m2".to_string(), move |x: Item| apply(s2, x)), it).await
+            }
+            _ => p.execute_two_stage(AsyncStage { stage: s1 }, AsyncStage { stage: s2 }, it).await,
+        }
+    }) {
+        Ok(r) => r,
+        Err(o) => return o,
+    };
+    judge_seq(got.map(|x| vec![x]), reference(&[s1, s2], &c.input), swallow_class(&[s1, s2], 1))
+}
+
+fn run_process_batch(c: &Case) -> Outcome {
+    let its = items(&c.input);
+    let stage = c.stage;
+    let p = pipeline(c, is_slow(stage));
+    if c.kind == Kind::FilterNot1 {
+        let st = FilterStage::new("f".to_string(), |x: &Item| x.1 != 1);
+        let got = match block(c.rt, async { p.process_batch(st, its).await }) {
+            Ok(r) => r,
+            Err(o) => return o,
+        };
+        return judge_seq(got.map(opt_items), Some(filter_reference(&c.input)), "none");
+    }
+    let got = match block(c.rt, async {
+        match c.kind {
+            Kind::Map => p.process_batch(MapStage::new("m".to_string(), move |x: Item| apply(stage, x)), its).await,
+            Kind::BatchMapPlain => {
+                p.process_batch(BatchMapStage::<_, fn(Vec<Item>) -> ZResult<Vec<Item>>>::new("b".to_string(), move |x: Item| apply(stage, x)), its).await
+            }
+            Kind::BatchMapBatch => {
+                p.process_batch(
+                    BatchMapStage::with_batch_support("bb".to_string(), move |x: Item| apply(stage, x), move |v: Vec<Item>| v.into_iter().map(|x| apply(stage, x)).collect::<ZResult<Vec<Item>>>()),
+                    its,
+                )
+                .await
+            }
+            _ => p.process_batch(AsyncStage { stage }, its).await,
+        }
+    }) {
+        Ok(r) => r,
+        Err(o) => return o,
+    };
+    judge_seq(got, reference(&[stage], &c.input), swallow_class(&[stage], c.input.len()))
+}
+
+fn run_exec_stream(c: &Case) -> Outcome {
+    let its = items(&c.input);
+    let n_stages = c.n_stages.max(1);
+    let chain: Vec<Stage> = (0..n_stages).map(|k| if k == c.at { c.stage } else { base(c.stage) }).collect();
+    let stages: Vec<Box<dyn PipelineStage<Item, Item>>> = chain.iter().map(|&s| boxed_stage(c.kind, s)).collect();
+    let p = pipeline(c, chain.iter().any(|&s| is_slow(s)));
+    let cap = c.buffer.max(1);
+    let got = match block(c.rt, async {
+        let (in_tx, in_rx) = mpsc::channel::<Item>(cap);
+        let (out_tx, mut out_rx) = mpsc::channel::<Item>(cap);
+        let feeder = async move {
+            for it in its {
+                if in_tx.send(it).await.is_err() {
+                    break; // the first stage stopped reading
+                }
+            }
+        };
+        let collector = async move {
+            let mut out = Vec::new();
+            while let Some(x) = out_rx.recv().await {
+                out.push(x);
+            }
+            out
+        };
+        let (_, r, out) = tokio::join!(feeder, p.execute_stream(stages, in_rx, out_tx), collector);
+        (r, out)
+    }) {
+        Ok(r) => r,
+        Err(o) => return o,
+    };
+    let (r, out) = got;
+    // the stream's "returned value" is the pair (Result, what arrived on the output channel before it closed)
+    judge_seq(r.map(|()| out), reference(&chain, &c.input), swallow_class(&chain, c.input.len()))
+}
+
+fn run_collector(c: &Case) -> Outcome {
+    let its = items(&c.input);
+    let max_batch = c.batch.max(1);
+    let timeout = if c.zero_timeout { Duration::ZERO } else { NEVER };
+    let got = match block(c.rt, async {
+        let col: BatchCollector<Item> = BatchCollector::new(max_batch, timeout);
+        let mut batches: Vec<Vec<Item>> = Vec::new();
+        let mut adds = 0usize;
+        if c.check_after == Some(0) {
+            if let Some(b) = col.check_timeout().await? {
+                batches.push(b);
+            }
+        }
+        for it in its {
+            if let Some(b) = col.add(it).await? {
+                batches.push(b);
+            }
+            adds += 1;
+            if c.check_after == Some(adds) {
+                if let Some(b) = col.check_timeout().await? {
+                    batches.push(b);
+                }
+            }
+        }
+        if let Some(b) = col.flush().await? {
+            batches.push(b);
+        }
+        let left = col.len().await;
+        let empty = col.is_empty().await;
+        Ok::<_, ZiporaError>((batches, left, empty))
+    }) {
+        Ok(r) => r,
+        Err(o) => return o,
+    };
+    let (batches, left, empty) = match got {
+        Ok(x) => x,
+        Err(e) => return fail("unexpected_err", "err", format!("BatchCollector returned Err({:?})", e)),
+    };
+    let flat: Vec<Item> = batches.iter().flatten().copied().collect();
+    let want = items(&c.input);
+    if flat != want {
+        return fail("result_mismatch", mismatch_class(&flat, &want), format!("added {:?}, the batches handed out are {:?}", want, batches));
+    }
+    if left != 0 || !empty {
+        return fail("collector_not_empty", "after_flush", format!("after flush() len() = {left}, is_empty() = {empty}"));
+    }
+    if batches.iter().any(|b| b.is_empty()) {
+        return fail("empty_batch", "some_empty", format!("an empty batch was handed out: {:?}", batches));
+    }
+    if want.is_empty() {
+        Outcome::trivial("ok_empty")
+    } else {
+        Outcome::pass(&format!("ok_{}_batches", batches.len().min(3)))
+    }
+}
+
+// ------------------------------------------------------------------------------------------------
+// fiber_yield / fiber_aio helpers with a map/batch shape
+
+fn run_sequential_helpers(api: Api, c: &Case) -> Outcome {
+    let its = items(&c.input);
+    let stage = c.stage;
+    let k = c.batch.max(1);
+    let want = reference(&[stage], &c.input);
+    let swallow = swallow_class(&[stage], c.input.len());
+    match api {
+        Api::RunWithYield => {
+            let its2 = its.clone();
+            let got = match block(c.rt, async { CooperativeUtils::run_with_yield(its2.len(), k, |i| apply(stage, its2[i])).await }) {
+                Ok(r) => r,
+                Err(o) => return o,
+            };
+            judge_seq(got, want, swallow)
+        }
+        Api::ProcessVecYielding => {
+            let got = match block(c.rt, async { CooperativeUtils::process_vec_yielding(its, k, |it| apply(stage, it)).await }) {
+                Ok(r) => r,
+                Err(o) => return o,
+            };
+            judge_seq(got, want, swallow)
+        }
+        Api::YieldingIter => {
+            // for_each: Ok(count) => count == len and the closure saw every item once, in order
+            let mut seen: Vec<Item> = Vec::new();
+            let its2 = its.clone();
+            let got = match block(c.rt, async {
+                let r = YieldingIterator::new(its2.clone().into_iter(), k)
+                    .for_each(|it| {
+                        seen.push(it);
+                        apply(stage, it).map(|_| ())
+                    })
+                    .await;
+                let collected: Vec<Item> = YieldingIterator::new(its2.into_iter(), k).collect().await;
+                (r, collected)
+            }) {
+                Ok(r) => r,
+                Err(o) => return o,
+            };
+            let (r, collected) = got;
+            if collected != its {
+                return fail("result_mismatch", mismatch_class(&collected, &its), format!("collect() of {:?} gives {:?}", its, collected));
+            }
+            match (r, misbehaves(stage)) {
+                (Ok(cnt), None) => {
+                    if cnt != its.len() || seen != its {
+                        fail("for_each_visits", mismatch_class(&seen, &its), format!("for_each returned Ok({cnt}) having visited {:?}; inputs {:?}", seen, its))
+                    } else if its.is_empty() {
+                        Outcome::trivial("ok_empty")
+                    } else {
+                        Outcome::pass("ok")
+                    }
+                }
+                (Err(_), Some(_)) => Outcome::pass("err"),
+                (Ok(cnt), Some(_)) => fail("error_swallowed", swallow, format!("the closure failed for one item, for_each returned Ok({cnt})")),
+                (Err(e), None) => fail("unexpected_err", "err", format!("no item fails, for_each returned Err({:?})", e)),
+            }
+        }
+        _ => {
+            // FiberIoUtils::batch_process
+            let got = match block(c.rt, async {
+                FiberIoUtils::batch_process(its, k, move |chunk: Vec<Item>| {
+                    Box::pin(async move { chunk.into_iter().map(|it| apply(stage, it)).collect::<ZResult<Vec<Item>>>() }) as BoxFut<Vec<Item>>
+                })
+                .await
+            }) {
+                Ok(r) => r,
+                Err(o) => return o,
+            };
+            judge_seq(got, want, swallow)
+        }
+    }
+}
+
+fn run_unordered(api: Api, c: &Case) -> Outcome {
+    let its = items(&c.input);
+    let stage = c.stage;
+    let k = c.batch.max(1);
+    let gate = Gate::new();
+    let got = match api {
+        Api::ConcurrentWithYield => {
+            let futs: Vec<BoxFut<Item>> = its.iter().map(|&it| item_future(stage, gate.clone(), it, None)).collect();
+            block(c.rt, async { CooperativeUtils::concurrent_with_yield(futs, k).await })
+        }
+        _ => {
+            // paths "i-v" carry the item
+            let paths: Vec<PathBuf> = its.iter().map(|(i, v)| PathBuf::from(format!("{i}-{v}"))).collect();
+            let processor = move |p: PathBuf| -> BoxFut<Item> {
+                let s = p.to_string_lossy().to_string();
+                let (i, v) = s.split_once('-').expect("harness path");
+                item_future(stage, gate.clone(), (i.parse().unwrap(), v.parse().unwrap()), None)
+            };
+            block(c.rt, async { FiberIoUtils::process_files_parallel(paths, k, processor).await })
+        }
+    };
+    let got = match got {
+        Ok(r) => r,
+        Err(o) => return o,
+    };
+    let want = reference(&[stage], &c.input);
+    // "completion order": every item is present, the late item i comes after item i+1 and all other items are in input order
+    let completion_order = match (stage, &got, &want) {
+        (Stage::LateAt(i), Ok(g), Some(w)) if g.len() == w.len() => {
+            let others = |v: &[Item]| v.iter().filter(|x| x.0 != i).copied().collect::<Vec<Item>>();
+            let pos = |k: usize| g.iter().position(|x| x.0 == k);
+            others(g) == others(w) && matches!((pos(i), pos(i + 1)), (Some(a), Some(b)) if a > b)
+        }
+        _ => false,
+    };
+    match judge_seq(got, want, swallow_class(&[stage], c.input.len())) {
+        // results handed back in completion order instead of input order is one defect (only a LateAt case can show
+        // it); any other reordering keeps the class `reordered`
+        Outcome::Fail(mut f) if f.clause == "result_mismatch" && f.class == "reordered" && completion_order => {
+            f.class = "completion_order".to_string();
+            Outcome::Fail(f)
+        }
+        o => o,
+    }
+}
+
+// ------------------------------------------------------------------------------------------------
+// AsyncBlobStore batch operations
+
+async fn blob_batch<S: AsyncBlobStore>(store: S, c: &Case) -> Outcome {
+    let blobs: Vec<Vec<u8>> = c.input.iter().enumerate().map(|(i, &v)| vec![i as u8, v]).collect();
+    let refs: Vec<&[u8]> = blobs.iter().map(|b| b.as_slice()).collect();
+    let ids = match store.put_batch(refs).await {
+        Ok(ids) => ids,
+        Err(_) => return Outcome::skip("put_batch returned Err"),
+    };
+    if ids.len() != blobs.len() {
+        return fail("result_mismatch", if ids.len() < blobs.len() { "shorter" } else { "longer" }, format!("put_batch of {} blobs returned {} ids", blobs.len(), ids.len()));
+    }
+    let mut uniq = ids.clone();
+    uniq.sort();
+    uniq.dedup();
+    if uniq.len() != ids.len() {
+        return fail("result_mismatch", "duplicate_ids", format!("put_batch returned duplicate ids {:?}", ids));
+    }
+    let (req, want): (Vec<u32>, Option<Vec<Vec<u8>>>) = match c.stage {
+        Stage::Id => (ids.clone(), Some(blobs.clone())),
+        Stage::FailAt(i) => {
+            if store.remove(ids[i]).await.is_err() {
+                return Outcome::skip("remove returned Err");
+            }
+            (ids.clone(), None)
+        }
+        _ => (ids.iter().rev().copied().collect(), Some(blobs.iter().rev().cloned().collect())),
+    };
+    let got = store.get_batch(req).await;
+    judge_seq(got, want, "missing_record")
+}
+
+fn run_blob_batch(c: &Case) -> Outcome {
+    match block(c.rt, async {
+        if c.kind == Kind::Map {
+            blob_batch(AsyncMemoryBlobStore::new(), c).await
+        } else {
+            blob_batch(AsyncCompressedBlobStore::new(AsyncMemoryBlobStore::new(), 3), c).await
+        }
+    }) {
+        Ok(o) => o,
+        Err(o) => o,
+    }
+}
+
+// ------------------------------------------------------------------------------------------------
+
+pub fn register(reg: &mut Registry, _tier: Tier) {
+    for api in [
+        Api::PoolMap,
+        Api::PoolForEach,
+        Api::PoolReduce,
+        Api::PoolSpawnBatch,
+        Api::ModMap,
+        Api::ModReduce,
+        Api::ExecSingle,
+        Api::ExecTwoStage,
+        Api::ProcessBatch,
+        Api::ExecStream,
+        Api::Collector,
+        Api::RunWithYield,
+        Api::ProcessVecYielding,
+        Api::YieldingIter,
+        Api::ConcurrentWithYield,
+        Api::ProcessFilesParallel,
+        Api::IoBatchProcess,
+        Api::BlobBatch,
+    ] {
+        reg.add(Enum(Pipes { api }));
+    }
+}
